@@ -59,8 +59,11 @@ def h07(c, U=3, R=1, other_market=False, suspensions=False, real_time_error=Fals
 
         def handler(pkg):
             m = fl.markets.markets[pkg.market_id]
-            log["exec"].append(dict(pkg=pkg, k=state["k"], book=m.market_book, now=_now(), market=pkg.market_id))
-            return real_handler(pkg)
+            e = dict(pkg=pkg, k=state["k"], book=m.market_book, now=_now(), market=pkg.market_id)
+            log["exec"].append(e)
+            r = real_handler(pkg)
+            e["piq"] = {id(o): o.simulated._piq for o in pkg._orders}  # observed at the observation point: right after execution
+            return r
 
         client.execution.handler = handler
         # publish times: strictly increasing, gaps from 1 ms to 10 minutes; bet delay per update 0..12 (changes in-play)
@@ -92,7 +95,7 @@ def h07(c, U=3, R=1, other_market=False, suspensions=False, real_time_error=Fals
             books = []
             for k in range(U):
                 tv = 100.0 + 2.0 * k  # 2.00 traded at 3.0 between consecutive updates -> 1.00 eligible
-                b = cm.book([cm.runner(1, atl=[{"price": 3.0, "size": 7.0}], tv=[{"price": 3.0, "size": tv}]), cm.runner(2)], version=7,
+                b = cm.book([cm.runner(1, atl=[{"price": 3.0, "size": 7.0 + k}], tv=[{"price": 3.0, "size": tv}]), cm.runner(2)], version=7,
                             pt=times[k][0], pt_ms=times[k][1], bet_delay=delays[k])
                 if suspensions and k > u_req and c.choose("update%d_suspended" % k, [False, True]):
                     # the update that suspends the market: requests falling due on it are executed against the state before it
@@ -154,6 +157,9 @@ def h07(c, U=3, R=1, other_market=False, suspensions=False, real_time_error=Fals
                     tgt = o
                     if kind == "place":
                         c.ob("req%d.date_time_placed=execution-time" % r, o.responses.date_time_placed == times[kx][0])
+                        if books[kx - 1].status == "OPEN":
+                            # the queue ahead is the one shown by the book the placement was executed against (the previous update)
+                            c.ob("req%d.queue-captured-from-previous-book" % r, e["piq"][id(o)] == 7.0 + (kx - 1), piq=str(e["piq"][id(o)]))
                         for f in o.simulated.matched:
                             c.ob("req%d.fill-not-before-request" % r, f[0] >= times[u_req][1])
                     if kind == "replace":
